@@ -21,11 +21,13 @@ prop(
         "(length fields, sentinel position, numBits / bitmap pattern, CDR string length, endianness, slice end) are "
         "enumerated concretely over every branch outcome of the parser - well-formed with 0..3 parameters, missing "
         "sentinel, length not a multiple of 4, length beyond the end, truncated header / value, empty region; numBits "
-        "0/1/4/32/33/64 (thorough: 255/256); string length 1/3/exact/too long/0xffffffff - and all remaining bytes "
+        "0/1/4/32/33/64 (thorough: 255/256); string length 0/1/3/exact/too long/0xffffffff - and all remaining bytes "
         "(ids, sequence numbers, parameter values, payload, set base) are symbolic; the verdict of every member is "
         "asserted exactly (decodes with the expected count / payload / consumed bytes, or is rejected). "
-        "Three genuine defects are recorded as known findings with __known/__rest splits: FragmentNumberSet numBits > 256 "
-        "(index out of bounds), FragmentNumberSet base overflow, String CDR length 0 (length - 1 underflow)."),
+        "These checks found three defects - FragmentNumberSet numBits > 256 (index out of bounds), FragmentNumberSet base "
+        "overflow, CDR string length 0 (length - 1 underflow) - and, through C06, the SequenceNumberSet member overflow and "
+        "DATA_FRAG fragmentSize 0; all are repaired in /repo. The former trigger scenarios are now must-pass obligations "
+        "asserting the rejection (Err), and the remaining obligations carry no negated-trigger assumption: nothing is suppressed."),
     bounds="quick: <= 44 symbolic bytes per unit (sizes per obligation in the evidence file), unwind 3..66; thorough: "
            "maximal 256-bit SequenceNumberSet / ACKNACK / GAP (44..60 bytes), INFO_REPLY 60 bytes, remaining flag octets and "
            "swapped endianness of the enumerated families, FragmentNumberSet numBits 255/256, ParameterList on 8 fully "
@@ -33,7 +35,7 @@ prop(
     outside="whole-message composition RtpsMessageRead::try_from on arbitrary bytes (not tractable: >1500 s for 36 bytes; the "
             "dispatcher is exercised on encoder-built messages under C06/C08); DATA / DATA_FRAG with the inline-QoS flag set "
             "and *arbitrary* length fields / octetsToInlineQos (only the enumerated family); FragmentNumberSet / NACK_FRAG with "
-            "arbitrary bitmaps (concrete patterns only) and numBits in the known-defect region; strings longer than 3 "
+            "arbitrary bitmaps (concrete patterns only) and symbolic numBits; strings longer than 3 "
             "characters and std's UTF-8 validator (stubbed to accept, trusted); inputs longer than the per-unit byte bounds; "
             "user sample payloads and discovery *values* decoded through the XTypes deserializer / DynamicData (not tractable, "
             "see DESIGN section 6); memory accounting other than the element-count bounds asserted per unit; the DATA flag N and "
@@ -41,12 +43,10 @@ prop(
     level_text="Bounded symbolic execution of the real decoders: every byte string up to the stated length (or every member of "
                "the stated image family with all non-control bytes symbolic) is covered; nothing is sampled. Not a proof for "
                "unbounded inputs.",
-    level_note="trusted: Kani/CBMC, harness oracles, std UTF-8 validation (stubbed in the two String harnesses); the three known "
-               "findings KF-C07-1..3 are excluded from the __rest obligations by their recorded trigger predicates only",
+    level_note="trusted: Kani/CBMC, harness oracles, std UTF-8 validation (stubbed in the two String harnesses)",
     technique="Kani/CBMC proof harnesses on the real decoders (rtps_messages::*, dcps::data_representation_builtin_endpoints::rtps_data_representation)",
     assumptions=[
-        "NOT trigger KF-C07-1 / KF-C07-2 in the FragmentNumberSet / NACK_FRAG __rest obligations; NOT trigger KF-C07-3 in the String __rest obligation",
-        "core::str::from_utf8 stubbed (accepts every byte string) in c07_discovery_string_zero_length__known and c07_cdr_string__rest",
+        "core::str::from_utf8 stubbed (accepts every byte string) in c07_discovery_string_zero_length_rejected and c07_cdr_string",
         "control fields of inline-QoS / FragmentNumberSet / String images taken from the enumerated families (listed per obligation)",
     ],
     timeout={"quick": 600, "thorough": 1500},
@@ -63,7 +63,7 @@ prop(
         "(Cursor<Vec<u8>>, write_submessage_into_bytes with the back-patched octetsToNextHeader) and decoded again by the "
         "real decoders; asserted: the RTPS header bytes, the submessage id, the little-endian flag and the other flags, "
         "octetsToNextHeader == number of element bytes that follow, and equality of every field (sequence numbers over "
-        "the full i64 range, set base full range with a symbolic bitmap, counts full i32, fragment fields full u16/u32, "
+        "the full i64 range, sets with a symbolic bitmap at representative bases (i64::MIN, a base whose members cross the high/low word boundary, the largest admissible base), counts full i32, fragment fields full u16/u32 (fragmentSize >= 1), "
         "payload and parameter bytes). HEARTBEAT goes through the whole parser RtpsMessageRead::try_from; for the other "
         "kinds the two calls of the dispatcher arm (SubmessageHeaderRead::try_read_from_bytes + the kind's "
         "try_from_bytes) are applied to the encoded message, because a harness that reaches all twelve decoders spends "
@@ -75,14 +75,16 @@ prop(
         "that CBMC sees them as constants (the container's heap Vec is opaque to its constant propagation); "
         "SequenceNumberSet / FragmentNumberSet values are obtained from the real element decoders applied to "
         "harness-written images (bits >= numBits clear, highest bit set - the shape the constructors produce) because "
-        "the constructors on a symbolic member list make every encoder length symbolic."),
-    bounds="quick (7 obligations): HEARTBEAT (final set) through the whole parser; HEARTBEAT_FRAG, INFO_DST, INFO_SRC, PAD; "
-           "ACKNACK with SequenceNumberSet numBits 34 and a symbolic bitmap; NACK_FRAG with the concrete FragmentNumberSet "
-           "{1,3,33,34}; DATA with inline QoS (1 parameter of 4 bytes), key and non-standard flags, 4-byte payload; DATA_FRAG "
-           "with key flag and 4-byte payload; big-endian HEARTBEAT / ACKNACK decode; messages <= 64 bytes; unwind <= 64. "
-           "thorough: GAP (numBits 0/41/64), INFO_TS (both flag values), DATA payload-only (5 bytes) and other DATA shapes "
-           "(payload 0/8), remaining HEARTBEAT flag combinations, ACKNACK numBits 0/1/32/64/256, NACK_FRAG base 0xffffff00, "
-           "DATA_FRAG with inline QoS",
+        "the constructors on a symbolic member list make every encoder length symbolic; the set base is concrete because "
+        "the repaired decoder rejects sets reaching beyond i64::MAX and a symbolic base would merge that error path into "
+        "the constructed value (numBits becomes symbolic for CBMC: > 12 GB)."),
+    bounds="quick (10 obligations): HEARTBEAT (final set) through the whole parser; HEARTBEAT_FRAG, INFO_DST, INFO_SRC, PAD; "
+           "INFO_TS (both flag values); ACKNACK with SequenceNumberSet numBits 34, symbolic bitmap, three bases; GAP numBits 41; "
+           "NACK_FRAG with the concrete FragmentNumberSet {1,3,33,34}; DATA payload-only (5 bytes) and DATA with inline QoS "
+           "(1 parameter of 4 bytes), key and non-standard flags, 4-byte payload; DATA_FRAG with key flag and 4-byte payload; "
+           "big-endian HEARTBEAT / ACKNACK decode; messages <= 64 bytes; unwind <= 64. thorough: other DATA shapes (payload "
+           "0/8), remaining HEARTBEAT flag combinations, ACKNACK numBits 0/1/32/64/256, GAP numBits 0/64, NACK_FRAG base "
+           "0xffffff00, DATA_FRAG with inline QoS",
     outside="payloads / submessages longer than 65 535 bytes: write_submessage_into_bytes truncates with `len as u16` "
             "(overall_structure.rs:273) without a check - not decided here (a 65 536-iteration byte-wise Vec::resize per "
             "message is not tractable); the UDP transport limits the fragment size to 65 000 (C38), so the truncation is only "
@@ -99,8 +101,8 @@ prop(
     technique="Kani/CBMC proof harnesses on rtps_messages::overall_structure::{RtpsMessageWrite, RtpsMessageRead} and the submessage encoders / decoders",
     assumptions=[
         "parameter id != PID_SENTINEL, parameter value length a multiple of 4",
-        "SequenceNumberSet / FragmentNumberSet values are those the real element decoders yield for images with bits >= numBits clear and bit numBits-1 set",
-        "FragmentNumberSet base <= u32::MAX - 33 (no member overflows u32, cf. KF-C07-2)",
+        "SequenceNumberSet values are those the real element decoder yields for images with bits >= numBits clear and bit numBits-1 set, at concrete representative bases",
+        "DATA_FRAG fragmentSize != 0 and set members within the number range (values outside are rejected by the decoders, C07)",
     ],
     timeout={"quick": 900, "thorough": 1800},
     mem_gb=12,
@@ -108,21 +110,26 @@ prop(
 
 prop(
     "C06",
-    ready=False,
+    ready=True,
     level="other",
     explanation=(
         "Decided per stage, because parsing a whole datagram of arbitrary bytes is not tractable (C07). "
-        "(1) Dispatcher: well-formed datagrams [INFO_REPLY, HEARTBEAT_FRAG], [INFO_TS, HEARTBEAT_FRAG] and [INFO_TS, INFO_SRC] "
+        "(1) Dispatcher: well-formed datagrams [INFO_REPLY, HEARTBEAT_FRAG] and [INFO_SRC, INFO_REPLY] (datagrams starting with "
+        "INFO_TS are in the thorough tier, undecided: the solver runs out of memory) "
         "with symbolic field values go through the real parser RtpsMessageRead::try_from and the real MessageReceiver "
         "until exhaustion - the pair DcpsDomainParticipant::handle_data runs on every datagram: no panic, exactly the "
-        "entity submessage is yielded (also after an INFO_REPLY), the interpreter state (source prefix, timestamp) is the "
+        "entity submessage is yielded (also after an INFO_REPLY), the interpreter state (source prefix) is the "
         "one the submessages carry. "
-        "(2) Per-handler steps on a real DcpsDomainParticipant built by its constructor: handle_data with "
-        "[INFO_REPLY, HEARTBEAT_FRAG] on a fresh participant (no panic, nothing sent); handle_data with a GAP from a "
-        "matched writer (writer proxy added to the built-in publications reader - a datagram that claims to come from a "
-        "discovered participant) with gapStart and gapList.base over the FULL i64 range: returns within the unwinding "
-        "bound, no panic, and the proxy's available_changes_max is base - 1 exactly when the range covers the next "
-        "expected sequence number. "
+        "(2) Per-handler steps: the operation handle_gap_submessage performs on the looked-up writer proxy "
+        "(RtpsWriterProxy::irrelevant_change_range) for gapStart and gapList.base over the FULL i64 range, from the initial "
+        "and from a symbolic pre-state: returns within the unwinding bound (no loop over the range any more), no panic, "
+        "available_changes_max is base - 1 exactly when the range covers the next expected sequence number; the proxy "
+        "arithmetic of the HEARTBEAT step (lost_changes_update / missing_changes_update / available_changes_max) for any "
+        "lastSN and any firstSN > i64::MIN. The same steps through DcpsDomainParticipant::handle_data on a real participant "
+        "(INFO_REPLY datagram, GAP from a matched writer) are written (thorough tier) but NOT decided: MessageReceiver "
+        "yields a reference into a heap Vec, CBMC cannot resolve the submessage kind and explores every handler arm of "
+        "handle_data (DATA, ACKNACK, ... with reply-message construction) on a symbolic submessage: > 900 s. A crate-visible "
+        "wrapper for the private handle_gap_submessage / handle_heartbeat_submessage would make them decidable. "
         "(3) Number ranges and fragment arithmetic: SequenceNumberSet decoded from arbitrary bytes is rejected when its "
         "last member would exceed i64::MAX and set() iterates accepted sets without overflow; DATA_FRAG with "
         "fragmentSize 0 is rejected by the decoder; RtpsWriterProxy::push_data_frag + reconstruct_data_from_frag "
@@ -133,9 +140,11 @@ prop(
         "These checks found seven datagram-reachable defects (INFO_REPLY reaching todo!(), GAP loop of up to 2^63 "
         "iterations, DATA_FRAG fragmentSize 0 division by zero, SequenceNumberSet member overflow, NACK_FRAG numBits > 256 "
         "index out of bounds, FragmentNumberSet base overflow, zero-length CDR string in discovery data); all are "
-        "repaired in /repo and the former trigger scenarios are now must-pass obligations - nothing is suppressed."),
+        "repaired in /repo and the former trigger scenarios are now must-pass obligations - nothing is suppressed. One "
+        "further defect is open and recorded with a __known/__rest split (KF-C06-5): a HEARTBEAT with firstSN = i64::MIN makes "
+        "available_changes_max() compute first_available_seq_num - 1 (overflow panic in builds with overflow checks)."),
     bounds="datagrams of 52..60 bytes with concrete framing (submessage ids, flags, non-zero lengths) and symbolic values; "
-           "participant freshly constructed, at most one matched writer proxy in its initial state; one datagram per "
+           "one writer proxy; one datagram / step per "
            "obligation; sets of <= 8 bits for iteration; unwind 4..14 (participant harnesses: 4 plus the per-loop bounds below)",
     outside="arbitrary (not well-framed) datagram bytes through the whole parser (per-unit totality: C07); the HEARTBEAT, "
             "ACKNACK, NACK_FRAG, DATA and DATA_FRAG handlers on a participant with matched readers / writers (they build "
@@ -152,8 +161,9 @@ prop(
                "encoder produces these layouts is C08), critical-section stubs in the participant harnesses",
     technique="Kani/CBMC proof harnesses on DcpsDomainParticipant::handle_data, rtps_messages::overall_structure::RtpsMessageRead, rtps::message_receiver, rtps::writer_proxy",
     assumptions=[
-        "critical_section::acquire/release stubbed in the participant harnesses (sequential schedules)",
+        "NOT trigger KF-C06-5 (firstSN > i64::MIN) in c06_heartbeat_arithmetic__rest; pre-state numbers within +-2^62 in c06_gap_range_proxy",
         "fragment_size != 0 in c06_data_frag_arithmetic (decoder invariant, asserted separately)",
+        "thorough tier only: critical_section::acquire/release stubbed in the participant harnesses",
     ],
     timeout={"quick": 900, "thorough": 1800},
     mem_gb=12,
